@@ -308,17 +308,23 @@ func (l *Lexer) readHTML() string {
 	position := l.position
 
 	for l.ch != 0 {
-		if l.ch == '\\' && l.prevChar() == '\\' && l.peekChar() == '<' {
-			// escape escaping
-			l.readChar()
-			x := l.input[position : l.position-1]
-			return x
-		}
+		if l.ch == '\\' {
+			rest := l.input[l.readPosition:]
+			if strings.HasPrefix(rest, "\\<%") {
+				// escape escaping: `\\<%` is one backslash followed by a live tag
+				l.readChar()
+				x := l.input[position:l.position]
+				l.readChar()
+				return strings.Replace(x, "\\<%", "<%", -1)
+			}
 
-		// allow for expression escaping using \<% foo %>
-		if l.ch == '\\' && l.peekChar() == '<' {
-			l.readChar()
-			l.readChar()
+			// allow for expression escaping using \<% foo %>
+			if strings.HasPrefix(rest, "<%") {
+				l.readChar()
+				l.readChar()
+				l.readChar()
+				continue
+			}
 		}
 
 		if l.ch == '<' && l.peekChar() == '%' {
@@ -329,12 +335,7 @@ func (l *Lexer) readHTML() string {
 		l.readChar()
 	}
 
-	end := l.position
-	if end > len(l.input) {
-		// the escape branch above reads two chars and may run past the input
-		end = len(l.input)
-	}
-	return strings.Replace(l.input[position:end], "\\<%", "<%", -1)
+	return strings.Replace(l.input[position:l.position], "\\<%", "<%", -1)
 }
 
 func isLetter(ch byte) bool {
